@@ -456,7 +456,7 @@ func discharge(o *Obligation, dir string, timeout time.Duration, idx int) {
 		if qf != "" && qf != txt && !usesPreludeRec(qf) {
 			fq := fname + ".qf.smt2"
 			os.WriteFile(fq, []byte(qf), 0o644)
-			r := runSolver(context.Background(), "z3-new", fq, 2*time.Second)
+			r := runSolver(context.Background(), "z3-new", fq, rung(2))
 			if r.result == "unsat" {
 				o.Result, o.Solver, o.Time = "unsat", "z3-new(qf)", r.secs
 				return
@@ -469,7 +469,7 @@ func discharge(o *Obligation, dir string, timeout time.Duration, idx int) {
 	if o.smtLin != "" && o.Kind != "cover" {
 		fl := fname + ".lin.smt2"
 		os.WriteFile(fl, []byte(o.smtLin), 0o644)
-		if r := runSolver(context.Background(), "z3-new", fl, 3*time.Second); r.result == "unsat" {
+		if r := runSolver(context.Background(), "z3-new", fl, rung(3)); r.result == "unsat" {
 			o.Result, o.Solver, o.Time = "unsat", "z3-new(linear)", time.Since(t0).Seconds()
 			return
 		}
@@ -477,16 +477,16 @@ func discharge(o *Obligation, dir string, timeout time.Duration, idx int) {
 	if o.smtANL != "" && o.Kind != "cover" {
 		fa := fname + ".anl.smt2"
 		os.WriteFile(fa, []byte(o.smtANL), 0o644)
-		if r := runSolver(context.Background(), "z3-new", fa, 4*time.Second); r.result == "unsat" {
+		if r := runSolver(context.Background(), "z3-new", fa, rung(4)); r.result == "unsat" {
 			o.Result, o.Solver, o.Time = "unsat", "z3-new(nl-abstracted)", time.Since(t0).Seconds()
 			return
 		}
-		if r := runSolver(context.Background(), "z3-new-ematch", fa, 4*time.Second); r.result == "unsat" {
+		if r := runSolver(context.Background(), "z3-new-ematch", fa, rung(4)); r.result == "unsat" {
 			o.Result, o.Solver, o.Time = "unsat", "z3-new-ematch(nl-abstracted)", time.Since(t0).Seconds()
 			return
 		}
 	}
-	quick := runSolver(context.Background(), "z3-new", fname, 3*time.Second)
+	quick := runSolver(context.Background(), "z3-new", fname, rung(3))
 	if quick.result == "unsat" || quick.result == "sat" {
 		o.Result, o.Solver, o.Time = quick.result, quick.solver, quick.secs
 		if quick.result == "sat" {
@@ -527,10 +527,15 @@ func discharge(o *Obligation, dir string, timeout time.Duration, idx int) {
 	if fullTxt != txt && len(fullTxt) < 1024*1024 {
 		fullName = fname + ".full.smt2"
 		os.WriteFile(fullName, []byte(fullTxt), 0o644)
-		if r := runSolver(context.Background(), "z3-new", fullName, 3*time.Second); r.result == "unsat" {
+		if r := runSolver(context.Background(), "z3-new", fullName, rung(3)); r.result == "unsat" {
 			o.Result, o.Solver, o.Time = "unsat", "z3-new(full)", time.Since(t0).Seconds()
 			return
 		}
+	}
+	if rungScale > 1 {
+		// second pass: the ladder only (the race has already been run once on this obligation)
+		o.Result = "timeout"
+		return
 	}
 	ctx, cancel := context.WithCancel(context.Background())
 	defer cancel()
@@ -620,4 +625,32 @@ func dischargeAll(obls []*Obligation, dir string, timeout time.Duration, par int
 		}(i, o)
 	}
 	wg.Wait()
+	// second chance, one obligation at a time: solver time limits are wall-clock, and with 16 obligations in flight (each
+	// racing up to four solvers at the end of the ladder) a rung that needs 3 s alone can miss its limit. An
+	// obligation left undecided is tried again alone with every rung given four times as long; a result of sat is
+	// never retried.
+	rungScale = 4
+	defer func() { rungScale = 1 }()
+	retried := 0
+	for i, o := range obls {
+		if o.Static || o.Kind == "cover" {
+			continue
+		}
+		if (o.Result == "timeout" || o.Result == "unknown") && retried < 4 {
+			// more than a handful of undecided obligations is not scheduling noise: only the first four are retried
+			retried++
+			saved := *o
+			discharge(o, dir, timeout, i)
+			if o.Result == "unsat" {
+				o.Solver += " (second pass)"
+			} else {
+				*o = saved
+			}
+		}
+	}
 }
+
+// time limit of a ladder rung (seconds), scaled in the second pass
+var rungScale = 1
+
+func rung(secs int) time.Duration { return time.Duration(secs*rungScale) * time.Second }
